@@ -33,6 +33,11 @@ def replay (j : Json) : R Verdict := do
                 ("C08", "an explicit initial guess would not be the first individual: it is read as a different value than the one written") :: pf
       | .error e =>
         dis := some s!"impl accepts, model rejects ({repr e})"
+        -- a number the declared integer type cannot hold (beyond i64, or not whole) has no reading at all: whatever
+        -- value was made of it is not the one written
+        if e == .numberConversion then
+          pf := ("C11", s!"a guess holding a number that is not a value of the declared integer type was accepted and read as {(fieldD imp "back").compress}: not the value written") ::
+                ("C08", "an explicit initial guess would not be the first individual: a number outside the integer type was read as another number") :: pf
         -- a guess built from a conforming value by ONE defect (wrong array length, size out of bounds, unknown
         -- key / option, out-of-bounds number ...) does not conform by construction: accepting it fails C11
         match (fieldD j "defect").getStr?.toOption with
